@@ -233,6 +233,8 @@ def fprints_dict_from_mol(
         else:
             try:
                 for i, fprints in sorted(fprints_dict.items()):
+                    if os.path.isfile(filenames[i]) and not overwrite:
+                        continue  # never touch an existing output file
                     fp.savez(filenames[i], *fprints)
                 logging.info("Saved fingerprints for {:s}.".format(log_name))
             except Exception:
